@@ -123,6 +123,69 @@ func runC15(p *Prog, l *Ledger) {
 			}
 		})
 		var bad3, bad4 []string
+		// the bound the counter is compared with: a constant (count-down) or a value computed, at the time of the test,
+		// from the current estimate (count-up to multiplier x limit) - never a snapshot stored when the period began
+		if counter != nil {
+			est := FieldRef{}
+			if info, _ := p.EstimateOf(T); info != nil {
+				est = info.Field
+			}
+			for _, m := range p.MethodsOf(T) {
+				allInstrs(m, func(ins ssa.Instruction) {
+					bo, ok := ins.(*ssa.BinOp)
+					if !ok {
+						return
+					}
+					switch bo.Op {
+					case token.LSS, token.LEQ, token.GTR, token.GEQ:
+					default:
+						return
+					}
+					var other ssa.Value
+					if fr, _, ok := loadedField(strip(bo.X, true)); ok && sameField(fr, *counter) {
+						other = bo.Y
+					} else if fr, _, ok := loadedField(strip(bo.Y, true)); ok && sameField(fr, *counter) {
+						other = bo.X
+					}
+					if other == nil {
+						return
+					}
+					if _, isC := strip(other, true).(*ssa.Const); isC {
+						return
+					}
+					usesEst, usesMutable := false, ""
+					seen := map[ssa.Value]bool{}
+					var walk func(v ssa.Value, d int)
+					walk = func(v ssa.Value, d int) {
+						if v == nil || seen[v] || d > 30 {
+							return
+						}
+						seen[v] = true
+						if fr, _, ok := loadedField(v); ok {
+							switch {
+							case est.Valid() && sameField(fr, est):
+								usesEst = true
+							case fr.Type != nil && types.Identical(fr.Type, T) && !p.FieldImmutable(fr) && !sameField(fr, *counter):
+								// a jitter factor redrawn at each probe is fine as long as the estimate itself is read now
+								usesMutable = fr.Name
+							}
+							return
+						}
+						if i2, ok := v.(ssa.Instruction); ok {
+							for _, op := range i2.Operands(nil) {
+								if op != nil && *op != nil {
+									walk(*op, d+1)
+								}
+							}
+						}
+					}
+					walk(other, 0)
+					if !usesEst && usesMutable != "" {
+						bad4 = append(bad4, fmt.Sprintf("%s: the probe counter is compared with %s, a value stored earlier, not with a bound computed from the current estimate: after the limit shrinks the next reset is still scheduled for the old limit", p.At(ins), usesMutable))
+					}
+				})
+			}
+		}
 		npaths, nprobe := 0, 0
 		EnumPaths(on, 200000, func(pa *Path) bool {
 			if !pa.IsReturn() {
